@@ -10,6 +10,7 @@ static unsigned long hvals[4096]; static int nh, hpos;
 extern "C" unsigned __VERIFIER_nondet_uint_unlogged(void) { return hpos < nh ? (unsigned)hvals[hpos++] : 0; }
 extern "C" void __VERIFIER_assume(int c) { if (!c) { std::printf(exhausted ? "NOTE: stopped at an assumption after the vector was exhausted\n" : "REPLAY: assumption violated\n"); std::fflush(stdout); std::_Exit(exhausted ? (failures ? 1 : 0) : 3); } }
 extern "C" void __VERIFIER_assert(int c, const char *m) {
+    if (std::strncmp(m, "CUT: ", 5) == 0) return;
     if (std::strncmp(m, "UB: ", 4) == 0 || std::strncmp(m, "unwinding", 9) == 0) { if (!c) { std::printf("ASSERT FAIL: %s\n", m); ++failures; } return; }
     std::printf("ASSERT %s: %s\n", c ? "ok" : "FAIL", m); if (!c) ++failures; std::fflush(stdout); }
 extern "C" void __VERIFIER_reach(const char *m) { std::printf("REACH: %s\n", m); std::fflush(stdout); }
